@@ -1,15 +1,16 @@
 """C31 - File imports store every data row of the uploaded file.
 
-Proof: coq/theories/Import (model of the code after fix b90d6d7).  Model of importCSV after
-encoding/csv (skip rows, BOM, header validation, ragged rows, the int -> float -> bool -> string
-inference with lazy buffers, time conversion: checked multiplication for explicit units,
-magnitude detection) and of importParquet with its per-type cell conversions.  Theorems for all
-inputs: C31_rows, C31_lossless_int/bool/string/float, C31_column_sound, C31_time_checked,
-C31_auto_exact, C31_accepted_times_exact, C31_time_overflow_rejected,
-C31_overflow_witness_rejected, C31_all_or_nothing, C31_stored_lossless_guarded,
-C31_parquet_int_lossless, C31_arrow_ts_checked, C31_arrow_ts_column_exact; still refuted at full
-strength: C31_underscore_column_refuted, C31_long_row_refuted, C31_parquet_uint64_refuted,
-C31_arrow_ts_column_overflow_refuted.
+Proof: coq/theories/Import (model of the code after fixes b90d6d7, fcf78a3, 53efdcd, 2599b0c).
+Model of importCSV after encoding/csv (skip rows, BOM, sequential header validation incl. the
+reserved '_' prefix, over-long rows rejected, short rows padded, the int -> float -> bool ->
+string inference with lazy buffers, time conversion: checked multiplication for explicit units,
+magnitude detection) and of importParquet with its checked per-type cell conversions.
+Theorems for all inputs: C31_rows, C31_lossless_int/bool/string/float, C31_column_sound,
+C31_stored_lossless (full strength), C31_time_checked, C31_auto_exact, C31_accepted_times_exact,
+C31_time_overflow_rejected, C31_long_row_rejected, C31_underscore_column_rejected,
+C31_all_or_nothing, C31_parquet_int_exact, C31_parquet_uint64_checked,
+C31_parquet_ts_column_checked, C31_arrow_ts_checked; the former defect witnesses are rejected
+(C31_overflow_witness_rejected, C31_former_witnesses_rejected, C31_former_parquet_witnesses_rejected).
 Tie 1 (translator): thresholds and multipliers of autoIntEpochToMicros / intTimeToMicros /
 arrowTimestampToMicros and of their checked variants are re-extracted from the source into
 coq/gen/Params_Import.v.
@@ -33,10 +34,10 @@ O = "Arc.Import.Obligations"
 THEOREMS = [(P, "C31_rows"), (P, "C31_lossless_int"), (P, "C31_lossless_bool"), (P, "C31_lossless_string"),
             (P, "C31_lossless_float"), (P, "C31_column_sound"), (P, "C31_time_checked"), (P, "C31_auto_exact"),
             (P, "C31_accepted_times_exact"), (P, "C31_time_overflow_rejected"), (P, "C31_overflow_witness_rejected"),
-            (P, "C31_all_or_nothing"), (P, "C31_stored_lossless_guarded"),
-            (P, "C31_underscore_column_refuted"), (P, "C31_long_row_refuted"),
-            (P, "C31_parquet_int_lossless"), (P, "C31_parquet_uint64_refuted"),
-            (P, "C31_arrow_ts_checked"), (P, "C31_arrow_ts_column_exact"), (P, "C31_arrow_ts_column_overflow_refuted"),
+            (P, "C31_all_or_nothing"), (P, "C31_stored_lossless"),
+            (P, "C31_long_row_rejected"), (P, "C31_underscore_column_rejected"), (P, "C31_former_witnesses_rejected"),
+            (P, "C31_parquet_int_exact"), (P, "C31_parquet_uint64_checked"), (P, "C31_parquet_ts_column_checked"),
+            (P, "C31_former_parquet_witnesses_rejected"), (P, "C31_arrow_ts_checked"),
             (O, "C31_params_good"), (O, "C31_deployed_auto_exact")]
 MODULES = [P, O]
 TIE_NAME = ("C31 correspondence (api.importCSV / importParquet + ingest.ArrowBuffer vs Arc.Import.Model.import_csv / "
@@ -44,10 +45,7 @@ TIE_NAME = ("C31 correspondence (api.importCSV / importParquet + ingest.ArrowBuf
 SRC = "internal/api/import_inprocess.go"
 HARNESS = {"internal/api/zz_import_verif_test.go": "harness/import/import_verif_test.go"}
 FMT = {"": "Auto", "epoch_s": "EpochS", "epoch_ms": "EpochMs", "epoch_us": "EpochUs", "epoch_ns": "EpochNs"}
-FINDINGS = {"parquet-non-time-timestamp-column-overflows-int64-micros": "pq_tscol_overflows",
-            "column-name-starting-with-underscore": "has_underscore_column",
-            "data-row-longer-than-header": "has_long_row",
-            "parquet-uint64-above-maxint64": "pq_has_big_uint64"}
+FINDINGS = {}      # signature -> class predicate of the OPEN known findings (none at present)
 
 
 # ---------------------------------------------------------------------------------------
@@ -429,18 +427,16 @@ def gen_pq(rng, cid):
 
 
 def pq_witness_cases():
+    """Parquet files that witnessed repaired defects (b90d6d7, 2599b0c): all rejected now."""
     def col(name, typ, values):
         return {"name": base64.b64encode(name.encode()).decode(), "type": typ, "values": values}
-    return [{"id": "witness-pq-uint64", "kind": "parquet", "mode": "witness", "witness": "parquet-uint64-above-maxint64", "data": "",
-             "time_column": "time", "time_format": "", "delimiter": "", "skip_rows": 0,
-             "pq": [col("time", "ts_us", ["1700000000000000"]), col("big", "uint64", ["9223372036854775813"])]},
-            {"id": "regression-pq-ts-overflow", "kind": "parquet", "mode": "regression", "data": "",     # rejected since b90d6d7
-             "time_column": "time", "time_format": "", "delimiter": "", "skip_rows": 0,
-             "pq": [col("time", "ts_s", ["9223372036855"]), col("v", "int64", ["1"])]},
-            {"id": "witness-pq-tscol-overflow", "kind": "parquet", "mode": "witness",
-             "witness": "parquet-non-time-timestamp-column-overflows-int64-micros", "data": "",
-             "time_column": "time", "time_format": "", "delimiter": "", "skip_rows": 0,
-             "pq": [col("time", "ts_us", ["1700000000000000"]), col("seen", "ts_s", ["9223372036855"])]}]
+
+    def c(cid, cols):
+        return {"id": cid, "kind": "parquet", "mode": "regression", "data": "", "time_column": "time", "time_format": "",
+                "delimiter": "", "skip_rows": 0, "pq": cols}
+    return [c("regression-pq-uint64", [col("time", "ts_us", ["1700000000000000"]), col("big", "uint64", ["9223372036854775813"])]),
+            c("regression-pq-ts-overflow", [col("time", "ts_s", ["9223372036855"]), col("v", "int64", ["1"])]),
+            c("regression-pq-tscol-overflow", [col("time", "ts_us", ["1700000000000000"]), col("seen", "ts_s", ["9223372036855"])])]
 
 
 def pqcol_to_coq(c, widen=True):
@@ -490,22 +486,20 @@ def pqcase_to_coq(c):
             % (req, clist(table), clist(fl), cn(code), clist(rows), cn(ob["files"])))
 
 
-PQ_PREDS = {"agree": "pqcase_agrees", "oracle": "pqcase_oracle", "underscore": "(fun c => negb (pq_has_underscore c))",
-            "biguint": "(fun c => negb (pq_has_big_uint64 c))", "tscol": "(fun c => negb (pq_tscol_overflows c))"}
+PQ_PREDS = {"agree": "pqcase_agrees", "oracle": "pqcase_oracle"}
 
 
 def witness_cases():
-    def c(cid, text, sig, **kw):
-        d = {"id": cid, "kind": "csv", "mode": "witness", "witness": sig, "data": base64.b64encode(text.encode()).decode(),
+    """The uploads that witnessed the four repaired CSV defects, kept as regression cases
+    (each must now be rejected with nothing stored)."""
+    def c(cid, text, **kw):
+        d = {"id": cid, "kind": "csv", "mode": "regression", "data": base64.b64encode(text.encode()).decode(),
              "time_column": "time", "time_format": "", "delimiter": ",", "skip_rows": 0}
         d.update(kw)
         return d
-    reg = c("regression-overflow", "time,v\n9223372036855,1\n", None, time_format="epoch_s")   # rejected since b90d6d7
-    reg["mode"] = "regression"
-    del reg["witness"]
-    return [reg,
-            c("witness-underscore", "time,_hidden,v\n1700000000,5,6\n", "column-name-starting-with-underscore"),
-            c("witness-longrow", "time,v\n1700000000,5,EXTRA\n1700000001,6\n", "data-row-longer-than-header")]
+    return [c("regression-overflow", "time,v\n9223372036855,1\n", time_format="epoch_s"),          # b90d6d7
+            c("regression-underscore", "time,_hidden,v\n1700000000,5,6\n"),                         # 53efdcd
+            c("regression-longrow", "time,v\n1700000000,5,EXTRA\n1700000001,6\n")]                  # fcf78a3
 
 
 def corpus_cases():
@@ -527,7 +521,7 @@ def corpus_cases():
 # ---------------------------------------------------------------------------------------
 
 def run_impl(cases, tag):
-    hc = [dict({k: c.get(k) for k in ("kind", "data", "time_column", "time_format", "delimiter", "skip_rows", "pq")}, id=i) for i, c in enumerate(cases)]
+    hc = [dict({k: c.get(k) for k in ("kind", "data", "time_column", "time_format", "delimiter", "skip_rows", "pq", "via")}, id=i) for i, c in enumerate(cases)]
     obs = vlib.run_go_harness("C31", "./internal/api/", "^TestVerifImport$", HARNESS, hc, tags="verif duckdb_arrow", timeout=2400, tag=tag)
     if len(obs) != len(cases):
         raise vlib.TieBroken("C31 harness returned %d results for %d cases" % (len(obs), len(cases)))
@@ -616,8 +610,7 @@ def case_to_coq(c):
 
 HEADER = ("From Coq Require Import List ZArith Bool NArith.\nFrom Arc Require Import Import.Model.\n"
           "From ArcGen Require Import Params_Import.\nImport ListNotations.\nOpen Scope Z_scope.\n")
-PREDS = {"agree": "case_agrees", "oracle": "case_oracle", "underscore": "(fun c => negb (has_underscore_column c))",
-         "longrow": "(fun c => negb (has_long_row c))"}
+PREDS = {"agree": "case_agrees", "oracle": "case_oracle"}
 
 
 def eval_coq(cases, name, workers=6):
@@ -637,7 +630,7 @@ def eval_coq(cases, name, workers=6):
         kind, typ, preds, idx, terms, off = job
         r = vlib.coq_check_cases("C31", HEADER, typ, terms, preds, chunk=len(terms), name="%s_%s_%d" % (name, kind, off))
         return {k: [idx[x] for x in v] for k, v in r.items()}
-    res = {k: [] for k in list(PREDS) + ["biguint", "tscol"]}
+    res = {k: [] for k in PREDS}
     with ThreadPoolExecutor(max_workers=workers) as ex:
         for r in ex.map(one, jobs):
             for k, v in r.items():
@@ -721,13 +714,18 @@ def run(res, tier, seed):
         "strconv.ParseFloat, float64(int64), the float epoch path int64(f*unit) and time.Parse over the layout list are oracles, recomputed independently in the harness for every distinct cell (a change of the real float / text path shows up as a disagreement)",
         "strings.TrimSpace / EqualFold are modelled on ASCII (generated time cells and boolean spellings are ASCII)",
         "ArrowBuffer.WriteTypedColumnarDirect + FlushAll + the Parquet writer are exercised as they are; the model states what they must store (every row once; columns whose name starts with '_' are skipped by inferSchema)",
-        "HTTP multipart layer (handleCSVImport/handleParquetImport: size limit, form file) is not modelled; importCSV/importParquet are called in-package",
+        "four fifths of the uploads call importCSV/importParquet in-package; one fifth go through the real handleCSVImport/handleParquetImport (multipart form, query options, importPreamble) on ONE reused fasthttp.RequestCtx with max_buffer_size=1 and a held flush worker, the next request overwriting the connection buffers before the flush builds the storage path - the model has value semantics: rows must be found under the request's own database/measurement and nowhere else; RBAC and the size limit are not exercised",
     ]
 
     n, m = (280, 110) if tier == "quick" else (6000, 2500)
     t1 = time.time()
     fixed = witness_cases() + pq_witness_cases() + corpus_cases()
     cases = fixed + [gen_csv(rng, i) for i in range(n)] + [gen_pq(rng, n + i) for i in range(m)]
+    # every fifth generated upload goes through the real HTTP handler on a reused connection whose
+    # request buffers are overwritten by a following import while this one's flush is still queued
+    for k, c in enumerate(cases[len(fixed):]):
+        if k % 5 == 0:
+            c["via"] = "handler"
     out = run_impl(cases, tier)
     res.stage("impl_harness", t1)
     t2 = time.time()
@@ -736,10 +734,7 @@ def run(res, tier, seed):
     known = {e["signature"]: e for e in vlib.known_for("C31")}
     dis = set(ev["agree"])
     orf = set(ev["oracle"])
-    cls = {"parquet-non-time-timestamp-column-overflows-int64-micros": set(ev["tscol"]),
-           "column-name-starting-with-underscore": set(ev["underscore"]),
-           "data-row-longer-than-header": set(ev["longrow"]),
-           "parquet-uint64-above-maxint64": set(ev["biguint"])}
+    cls = {}            # index sets of the classes of open known findings (none at present)
 
     res.cov["evaluations"] = len(out)
     res.cov["distinct_nontrivial"] = len({json.dumps([c["data"], c.get("pq"), c["time_column"], c["time_format"], c["delimiter"], c["skip_rows"]]) for c in out if nontrivial(c)})
@@ -749,7 +744,8 @@ def run(res, tier, seed):
                        "malformed stream: header errors, bad time cells, no rows, csv errors, bad delimiters, unsupported formats; generated Parquet files (built by "
                        "the harness with arrow-go): int8..uint64, float32/64, bool, string, binary, timestamp s/ms/us/ns columns with nulls, time column as "
                        "timestamp / integer / float / text, null or NaN times, unsupported types; + the refutation witnesses + corpus.  non-trivial = accepted "
-                       "upload storing >= 2 distinct cell types and containing >= 1 empty cell / null; distinct by upload content and options")
+                       "upload storing >= 2 distinct cell types and containing >= 1 empty cell / null; distinct by upload content and options.  The uploads "
+                       "that witnessed the repaired defects (overflowing epoch, '_' column, over-long row, uint64 > MaxInt64, timestamp overflow) run first as regression cases")
     res.cov["model_vs_impl_disagreements"] = len(dis)
     res.cov["oracle_failures"] = len(orf)
     modes, classes, types = {}, {}, {}
@@ -774,7 +770,13 @@ def run(res, tier, seed):
     res.cov["histogram"]["kinds"] = {k: sum(1 for c in out if c["kind"] == k) for k in ("csv", "parquet")}
 
     reproduced, violations, not_reproduced = set(), [], 0
+    res.cov["histogram"]["via_handler"] = sum(1 for c in out if c.get("via") == "handler")
+    res.cov["rows_stored_under_another_request"] = sum(1 for c in out if c["obs"].get("foreign"))
     for i, c in enumerate(out):
+        if c["obs"].get("foreign"):
+            violations.append(("rows of an accepted import were stored under ANOTHER request's database/measurement "
+                               "(the handler kept strings that alias the connection's request buffer)", c, "oracle", True))
+            continue
         agrees = i not in dis
         oracle_ok = i not in orf
         in_classes = [sig for sig, s in cls.items() if i in s]
@@ -819,7 +821,7 @@ def run(res, tier, seed):
         def fails(cands, kind=kind):
             o = run_impl(cands, "shrink")
             e = eval_coq(o, "Shrink")
-            bad = set(e["agree"]) if kind == "correspondence" else set(e["oracle"])
+            bad = set(e["agree"]) if kind == "correspondence" else (set(e["oracle"]) | {j for j, x in enumerate(o) if x["obs"].get("foreign")})
             return [j in bad for j in range(len(cands))]
         small = shrink(c, fails) if len(violations) < 60 else {k: v for k, v in c.items() if k != "obs"}
         so = run_impl([small], "shrunk")[0]
@@ -845,7 +847,7 @@ def replay(res, path):
         print("replay file names no concrete case:", obj.get("summary"))
         return 1
     translate_params()
-    c = {k: c[k] for k in ("kind", "data", "time_column", "time_format", "delimiter", "skip_rows", "pq") if k in c}
+    c = {k: c[k] for k in ("kind", "data", "time_column", "time_format", "delimiter", "skip_rows", "pq", "via") if k in c}
     c["mode"] = "replay"
     out = run_impl([c], "replay")
     e = eval_coq(out, "Replay")
@@ -854,5 +856,6 @@ def replay(res, path):
     print("status:", ob["status"], ob["msg"], "| rows reported:", ob["rows_reported"], "| stored rows:", len(ob["stored"]), "| files:", ob["files"])
     for r in ob["stored"][:10]:
         print("  time=%s %s" % (r["time"], {base64.b64decode(k).decode("utf-8", "replace"): (v["t"], v["v"]) for k, v in r["cells"].items()}))
-    print("model disagrees:", bool(e["agree"]), "| import property fails on the real code:", bool(e["oracle"]))
-    return 1 if (e["agree"] or e["oracle"]) else 0
+    print("model disagrees:", bool(e["agree"]), "| import property fails on the real code:", bool(e["oracle"]),
+          "| rows stored under another request:", ob.get("foreign", 0))
+    return 1 if (e["agree"] or e["oracle"] or ob.get("foreign")) else 0
